@@ -801,6 +801,13 @@ def replay(prop: Prop, path: str) -> int:
         obs, res = run.evaluate([case], "replay")
         log(json.dumps({"case": case, "observation": obs[0], "verdict": res[0]}, indent=1, default=str))
         bad = (not res[0]["spec"]) or (rec["kind"] == "correspondence-broken" and not res[0]["corr"])
+        if bad and res[0]["corr"]:
+            known = {f["id"]: f for f in load_findings(prop.id) if f.get("status") == "known"}
+            fid = attributed(prop, case, obs[0], res[0])
+            if fid in known:
+                log("KNOWN-FINDING: property=%s %s: %s (this replay is an instance of the listed finding)"
+                    % (prop.id, fid, known[fid]["what"]))
+                return 0
         if bad:
             log("VIOLATION property=%s replay=%s" % (prop.id, path))
         return 1 if bad else 0
